@@ -115,6 +115,12 @@
 (declare-fun bitand (Int Int) Int)
 ; go/types: the returned expression is absent or the untyped nil (decided by the trusted closure isRetNil)
 (declare-fun RetIsNil (Ref) Bool)
+; supported subset (C12): abstract; the rules that generate it are the `ghost` clauses of the pass-2 contracts
+(declare-fun Sup (Iface) Bool)
+(declare-fun SupList (Slice) Bool)
+(declare-fun SupCases (Slice Int) Bool)
+; the import declarations of a file after go-imports' Clean (abstract; assumed contract of the dependency)
+(declare-fun importsCleaned (Ref World) World)
 (declare-fun funcType (Ref) Iface)
 (declare-fun sigTParams (Ref) Ref)
 (declare-fun tplLen (Ref) Int)
